@@ -208,7 +208,13 @@ def select(kinds, tier, seed, op, forms):
     rnd = random.Random("%s-%s" % (seed, op))
     core = next((k for k in ("i8", "u8", "bool") if k in kinds), kinds[0])
     sel = {k: [forms[0]] for k in kinds}
-    sel[core] = list(forms)
+    # one form per kernel macro (_op, _scalar_rhs_op, _scalar_lhs_op, _vec_op, _mat_vec_op, _vec_mat_op, _mat_row_op,
+    # _row_mat_op); the remaining six forms re-use those macros on another storage type and are wired by the shared
+    # impl_fxns! template, so they are run for the non-commutative `sub`, `gt`, `xor` only (and for everything in thorough)
+    if forms and isinstance(forms[0], tuple) and op not in ("sub", "gt", "xor"):
+        sel[core] = [f for f in forms if f[0] in ("SS", "SMD", "MDS", "MDMD", "MDVD", "VDMD", "MDRD", "RDMD")]
+    else:
+        sel[core] = list(forms)
     rest = [k for k in kinds if k != core and k not in ("i128", "u128", "f64")]
     if op in ("mul", "div", "mod", "pow"):
         rest = []
